@@ -20,6 +20,7 @@ import (
 	"bytes"
 	"errors"
 	"fmt"
+	"math"
 	"regexp"
 	"sort"
 	"strconv"
@@ -371,7 +372,12 @@ func (ctx *Context) evaluate() {
 	// ctx := &e.Context
 	var details []BufferSpan
 	numOpCountAdd := func(count IntType) bool {
-		e.NumOpCount += count
+		if count > 0 && e.NumOpCount > math.MaxInt64-count {
+			// 饱和而不是回绕: 9223372036854775807d6 这样的次数会让计数变成负数，从而绕过算力上限
+			e.NumOpCount = math.MaxInt64
+		} else {
+			e.NumOpCount += count
+		}
 		if ctx.Config.OpCountLimit > 0 && e.NumOpCount > ctx.Config.OpCountLimit {
 			ctx.Error = errors.New("允许算力上限")
 			return true
